@@ -992,7 +992,9 @@ def _do_run(wd, op, step, before):
                     touched.add(i)
                 st.ran, st.mpe, st.unknown, st.mpe_args, st.stale = True, "no", False, None, False
             elif a_ == b_:
-                if rexc is None and kind == "ok" and b_ is not None and len(targets) == 1:
+                if rexc is None and kind == "ok" and b_ is not None and len(targets) == 1 and not st.unknown:
+                    # (an earlier result that was itself produced under a swallowed fault is not "the earlier good
+                    # result": the same fault at the same place reproduces the same unjudged content)
                     wd.violate("fault.wrong_state", step,
                                f"the run of {w['algs'][i]['name']} hit a numerical failure, the call returned normally, and the "
                                f"stored result is still the earlier one, which differs from what its current parameters and "
